@@ -34,26 +34,26 @@ Expected == LET F[i \in 0..N] == IF i = 0 THEN <<>> ELSE F[i - 1] \o [k \in 1..P
 
 VARIABLES sav, omn,                                   \* persistent: .sav and .omn files
           sess, script, spos,                          \* process number, keyboard script and position
-          mpc, q, cur, j, sexit, oexit, ognum, cfgomen, placeholder,     \* main thread + shared flags
+          mpc, q, cur, j, sexit, oexit, ognum, cfgomen, placeholder, ng, cnt, \* main thread + shared flags; ng = report.num_guesses, cnt = guesses of the running call
           kpc, kline, qseen,                           \* keyboard thread
           stream                                       \* stdout, across all sessions
-vars == <<sav, omn, sess, script, spos, mpc, q, cur, j, sexit, oexit, ognum, cfgomen, placeholder, kpc, kline, qseen, stream>>
+vars == <<sav, omn, sess, script, spos, mpc, q, cur, j, sexit, oexit, ognum, cfgomen, placeholder, ng, cnt, kpc, kline, qseen, stream>>
 
 MainVars == <<mpc, q, cur, j, oexit, ognum, cfgomen, placeholder, stream, sav, omn>>
 KbdVars == <<kpc, kline, qseen, spos>>
 
-Init == /\ sav = [maxp |-> INF, hasomen |-> FALSE, ognum |-> 0]
+Init == /\ sav = [maxp |-> INF, hasomen |-> FALSE, ognum |-> 0, ng |-> 0]
         /\ omn = [pt |-> 0, pos |-> 0]
         /\ sess = 1 /\ script \in Scripts /\ spos = 1
         /\ mpc = "start" /\ q = <<>> /\ cur = 0 /\ j = 0 /\ sexit = FALSE /\ oexit = FALSE /\ ognum = 0
-        /\ cfgomen = FALSE /\ placeholder = FALSE
+        /\ cfgomen = FALSE /\ placeholder = FALSE /\ ng = 0 /\ cnt = 0
         /\ kpc = "nothread" /\ kline = "" /\ qseen = FALSE
         /\ stream = <<>>
 
 Alive == kpc \notin {"nothread", "dead"}
 QuitSeen == IF FixChk THEN sexit ELSE ~Alive
 
-SaveRec(mp) == [maxp |-> mp,
+SaveRec(mp) == [maxp |-> mp, ng |-> ng,
                 hasomen |-> IF oexit THEN TRUE ELSE cfgomen,
                 ognum |-> IF oexit THEN ognum ELSE sav.ognum]
 
@@ -67,65 +67,68 @@ MStart == /\ mpc = "start"
                ELSE /\ q' = SelectSeq([i \in 1..N |-> i], LAMBDA i : Rank(i) <= sav.maxp)
                     /\ cfgomen' = sav.hasomen /\ mpc' = "tstart"
                     /\ kpc' = "start"                    \* user_thread.start() happens before the next gate
-          /\ UNCHANGED <<sav, omn, sess, script, spos, cur, j, sexit, oexit, ognum, placeholder, kline, qseen, stream>>
+          /\ ng' = (IF sess = 1 THEN 0 ELSE sav.ng)        \* report.load(save_config)
+          /\ UNCHANGED <<sav, omn, sess, script, spos, cur, j, sexit, oexit, ognum, placeholder, kline, qseen, stream, cnt>>
 
 (* gate "save0": the initial save of a new session *)
 MSave0 == /\ mpc = "save0"
-          /\ sav' = [maxp |-> INF, hasomen |-> FALSE, ognum |-> 0]
+          /\ sav' = [maxp |-> INF, hasomen |-> FALSE, ognum |-> 0, ng |-> 0]
           /\ mpc' = "tstart" /\ kpc' = "start"           \* ... and then user_thread.start()
-          /\ UNCHANGED <<omn, sess, script, spos, q, cur, j, sexit, oexit, ognum, cfgomen, placeholder, kline, qseen, stream>>
+          /\ UNCHANGED <<omn, sess, script, spos, q, cur, j, sexit, oexit, ognum, cfgomen, placeholder, kline, qseen, stream, ng, cnt>>
 
 (* gate "tstart": the keyboard thread exists; --load with an interrupted Markov level starts restore_omen *)
 (* (if nothing of the level is left, restore_omen returns at once)                                         *)
 MThreadStarted ==
           /\ mpc = "tstart"
+          /\ cnt' = 0
           /\ IF sess > 1 /\ cfgomen
                THEN /\ cur' = omn.pt /\ j' = omn.pos /\ ognum' = sav.ognum /\ placeholder' = TRUE
                     /\ IF omn.pos < PT[omn.pt].size
                          THEN mpc' = "remit" /\ UNCHANGED cfgomen
                          ELSE mpc' = "pop" /\ cfgomen' = (IF FixStale THEN FALSE ELSE cfgomen)
                ELSE /\ mpc' = "pop" /\ UNCHANGED <<cur, j, ognum, placeholder, cfgomen>>
-          /\ UNCHANGED <<sav, omn, sess, script, spos, q, sexit, oexit, kpc, kline, qseen, stream>>
+          /\ UNCHANGED <<sav, omn, sess, script, spos, q, sexit, oexit, kpc, kline, qseen, stream, ng>>
 
 Emit(i, k) == stream' = Append(stream, <<i, k>>)
 
 (* gates "remit" / "oemit": print one Markov guess (restore_omen / omen_generate_guesses) *)
 MOmenEmit == /\ mpc \in {"remit", "oemit"}
-             /\ Emit(cur, j + 1) /\ j' = j + 1 /\ ognum' = ognum + 1
+             /\ Emit(cur, j + 1) /\ j' = j + 1 /\ ognum' = ognum + 1 /\ cnt' = cnt + 1
              /\ mpc' = (IF mpc = "remit" THEN "rchk" ELSE "ochk")
-             /\ UNCHANGED <<sav, omn, sess, script, spos, q, cur, sexit, oexit, cfgomen, placeholder, kpc, kline, qseen>>
+             /\ UNCHANGED <<sav, omn, sess, script, spos, q, cur, sexit, oexit, cfgomen, placeholder, kpc, kline, qseen, ng>>
 
 (* gates "rchk" / "ochk": the should_exit test after every Markov guess *)
 MOmenChk == /\ mpc \in {"rchk", "ochk"}
             /\ IF sexit
                  THEN /\ oexit' = TRUE /\ omn' = [pt |-> cur, pos |-> j]
-                      /\ mpc' = "pop" /\ UNCHANGED cfgomen
+                      /\ mpc' = "pop" /\ ng' = ng + cnt /\ UNCHANGED cfgomen
                  ELSE /\ UNCHANGED <<oexit, omn>>
                       /\ IF j < PT[cur].size
-                           THEN mpc' = (IF mpc = "rchk" THEN "remit" ELSE "oemit") /\ UNCHANGED cfgomen
-                           ELSE /\ mpc' = "pop"                      \* next_guess() returned None: level finished
+                           THEN mpc' = (IF mpc = "rchk" THEN "remit" ELSE "oemit") /\ UNCHANGED <<cfgomen, ng>>
+                           ELSE /\ mpc' = "pop" /\ ng' = ng + cnt       \* next_guess() returned None: level finished
                                 /\ cfgomen' = (IF mpc = "rchk" /\ FixStale THEN FALSE ELSE cfgomen)
-            /\ UNCHANGED <<sav, sess, script, spos, q, cur, j, sexit, ognum, placeholder, kpc, kline, qseen, stream>>
+            /\ UNCHANGED <<sav, sess, script, spos, q, cur, j, sexit, ognum, placeholder, kpc, kline, qseen, stream, cnt>>
 
 (* gate "pop": pqueue.next() *)
 MPop == /\ mpc = "pop"
         /\ IF q = <<>>
              THEN /\ mpc' = (IF FixLast /\ oexit THEN "savelast" ELSE "done") /\ UNCHANGED <<q, cur>>
              ELSE /\ cur' = Head(q) /\ q' = Tail(q) /\ mpc' = "chk"
-        /\ UNCHANGED <<sav, omn, sess, script, spos, j, sexit, oexit, ognum, cfgomen, placeholder, kpc, kline, qseen, stream>>
+        /\ UNCHANGED <<sav, omn, sess, script, spos, j, sexit, oexit, ognum, cfgomen, placeholder, kpc, kline, qseen, stream, ng, cnt>>
 
 (* gate "chk": the quit test of the loop; then create_guesses starts *)
 MChk == /\ mpc = "chk"
         /\ IF QuitSeen
-             THEN /\ mpc' = "saveq" /\ UNCHANGED <<j, placeholder, ognum>>
-             ELSE /\ j' = 0 /\ placeholder' = FALSE
+             THEN /\ mpc' = "saveq" /\ UNCHANGED <<j, placeholder, ognum, cnt>>
+             ELSE /\ j' = 0 /\ placeholder' = FALSE /\ cnt' = 0
                   /\ ognum' = (IF PT[cur].kind = "omen" THEN 0 ELSE ognum)
                   /\ mpc' = (IF PT[cur].size = 0 THEN "pop" ELSE IF PT[cur].kind = "omen" THEN "oemit" ELSE "emit")
-        /\ UNCHANGED <<sav, omn, sess, script, spos, q, cur, sexit, oexit, cfgomen, kpc, kline, qseen, stream>>
+        /\ UNCHANGED <<sav, omn, sess, script, spos, q, cur, sexit, oexit, cfgomen, kpc, kline, qseen, stream, ng>>
 
 (* gate "emit": print one guess of a non-Markov pre-terminal *)
 MEmit == /\ mpc = "emit"
-         /\ Emit(cur, j + 1) /\ j' = j + 1
+         /\ Emit(cur, j + 1) /\ j' = j + 1 /\ cnt' = cnt + 1
+         /\ ng' = (IF j + 1 < PT[cur].size THEN ng ELSE ng + cnt + 1)
          /\ mpc' = (IF j + 1 < PT[cur].size THEN "emit" ELSE "pop")
          /\ UNCHANGED <<sav, omn, sess, script, spos, q, cur, sexit, oexit, ognum, cfgomen, placeholder, kpc, kline, qseen>>
 
@@ -133,12 +136,12 @@ MEmit == /\ mpc = "emit"
 MSave == /\ mpc \in {"saveq", "savelast"}
          /\ sav' = SaveRec(Rank(cur))
          /\ mpc' = "done"
-         /\ UNCHANGED <<omn, sess, script, spos, q, cur, j, sexit, oexit, ognum, cfgomen, placeholder, kpc, kline, qseen, stream>>
+         /\ UNCHANGED <<omn, sess, script, spos, q, cur, j, sexit, oexit, ognum, cfgomen, placeholder, kpc, kline, qseen, stream, ng, cnt>>
 
 ---------------------------------------------------------------------------
 (* keyboard thread *)
 KStart == /\ kpc = "start" /\ mpc # "done" /\ kpc' = "input"
-          /\ UNCHANGED <<sav, omn, sess, script, spos, mpc, q, cur, j, sexit, oexit, ognum, cfgomen, placeholder, kline, qseen, stream>>
+          /\ UNCHANGED <<sav, omn, sess, script, spos, mpc, q, cur, j, sexit, oexit, ognum, cfgomen, placeholder, kline, qseen, stream, ng, cnt>>
 
 (* gate "input": input() returns the next scripted line, raises at EOF, or blocks for ever *)
 KInput == /\ kpc = "input" /\ mpc # "done"
@@ -147,29 +150,29 @@ KInput == /\ kpc = "input" /\ mpc # "done"
                THEN /\ kpc' = "dead" /\ UNCHANGED <<kline, spos, qseen>>          \* input() raises: the thread ends
                ELSE /\ kpc' = "sleep" /\ kline' = script[spos] /\ spos' = spos + 1
                     /\ qseen' = (qseen \/ script[spos] = "q")
-          /\ UNCHANGED <<sav, omn, sess, script, mpc, q, cur, j, sexit, oexit, ognum, cfgomen, placeholder, stream>>
+          /\ UNCHANGED <<sav, omn, sess, script, mpc, q, cur, j, sexit, oexit, ognum, cfgomen, placeholder, stream, ng, cnt>>
 
 KSleep == /\ kpc = "sleep" /\ mpc # "done" /\ kpc' = "status"
-          /\ UNCHANGED <<sav, omn, sess, script, spos, mpc, q, cur, j, sexit, oexit, ognum, cfgomen, placeholder, kline, qseen, stream>>
+          /\ UNCHANGED <<sav, omn, sess, script, spos, mpc, q, cur, j, sexit, oexit, ognum, cfgomen, placeholder, kline, qseen, stream, ng, cnt>>
 
 (* gate "status": print_status; it may raise while the placeholder pre-terminal of restore_omen is installed *)
 (* (get_status indexes the Markov groups with the level), which ends the thread silently                   *)
 KStatus == /\ kpc = "status" /\ mpc # "done"
            /\ \/ /\ placeholder /\ kpc' = "dead"
               \/ /\ kpc' = (IF kline = "q" THEN "setexit" ELSE "input")
-           /\ UNCHANGED <<sav, omn, sess, script, spos, mpc, q, cur, j, sexit, oexit, ognum, cfgomen, placeholder, kline, qseen, stream>>
+           /\ UNCHANGED <<sav, omn, sess, script, spos, mpc, q, cur, j, sexit, oexit, ognum, cfgomen, placeholder, kline, qseen, stream, ng, cnt>>
 
 (* gate "setexit": pcfg.should_exit = True; return *)
 KSetExit == /\ kpc = "setexit" /\ mpc # "done"
             /\ sexit' = TRUE /\ kpc' = "dead"
-            /\ UNCHANGED <<sav, omn, sess, script, spos, mpc, q, cur, j, oexit, ognum, cfgomen, placeholder, kline, qseen, stream>>
+            /\ UNCHANGED <<sav, omn, sess, script, spos, mpc, q, cur, j, oexit, ognum, cfgomen, placeholder, kline, qseen, stream, ng, cnt>>
 
 ---------------------------------------------------------------------------
 (* environment: the process has ended; the user runs --load *)
 Reload == /\ mpc = "done" /\ sess < MaxSess /\ Len(stream) < Len(Expected)
           /\ sess' = sess + 1 /\ script' \in Scripts /\ spos' = 1
           /\ mpc' = "start" /\ q' = <<>> /\ cur' = 0 /\ j' = 0 /\ sexit' = FALSE /\ oexit' = FALSE /\ ognum' = 0
-          /\ cfgomen' = FALSE /\ placeholder' = FALSE
+          /\ cfgomen' = FALSE /\ placeholder' = FALSE /\ ng' = 0 /\ cnt' = 0
           /\ kpc' = "nothread" /\ kline' = "" /\ qseen' = FALSE
           /\ UNCHANGED <<sav, omn, stream>>
 
@@ -194,6 +197,9 @@ NoShorten == (mpc = "done" /\ ~qseen) => IsPrefix(Expected, stream)
 LegalStop == mpc = "done" =>
                 \/ stream = <<>> \/ Len(stream) >= Len(Expected)
                 \/ LET e == stream[Len(stream)] IN e[2] = PT[e[1]].size \/ PT[e[1]].kind = "omen"
+(* beyond the listed properties: the guess counter written to the save file is the number of guesses written so far *)
+(* (status reports and the resumed session's totals build on it); replays of a tied last level are counted again     *)
+SavedCountIsStream == [][(mpc \in {"saveq", "savelast"} /\ mpc' = "done") => sav'.ng = Len(stream)]_vars
 (* a quit request, once the flag is set, is not lost: the main thread does not start another pre-terminal *)
 QuitNotLost == [][(sexit /\ mpc = "chk") => mpc' = "saveq"]_vars
 =============================================================================
